@@ -120,14 +120,14 @@ func genC09(rng *rand.Rand) *c09Scenario {
 			case "plain":
 				kinds = []string{"b", "v", "f", "w", "w", "r", "r", "m", "m"}
 			case "delim":
-				kinds = []string{"s", "s", "b", "r", "m"}
+				kinds = []string{"s", "s", "b", "r", "m", "f"}
 			default:
 				kinds = []string{"b", "s", "r"}
 			}
 			kind := kinds[rng.Intn(len(kinds))]
 			n := []int{3, 9, 40}[rng.Intn(3)]
-			if kind == "r" && rng.Intn(2) == 0 {
-				n = []int{1024, 1500, 2100}[rng.Intn(3)] // at and above the 1024-byte streaming chunk
+			if (kind == "r" || kind == "s" || kind == "f" || kind == "m") && rng.Intn(2) == 0 {
+				n = []int{1024, 1025, 1500, 2100}[rng.Intn(4)] // at and above the 1024-byte streaming chunk
 			}
 			hdr := fmt.Sprintf("<T%d.%d:", t+1, i)
 			body := []byte(hdr)
